@@ -798,32 +798,8 @@ func runHist(d desc) hlib.Case {
 	return hlib.Case{Coq: hlib.App("CHist", scfgCoq(d), hlib.List(connsC), hlib.List(obsC), hlib.List(logC)), Key: key, Sig: sig, Kind: kind, Size: idx}
 }
 
-// the read-deadline leak: no server-level read/idle timeout, HeaderReceived arms one for a request, a later request is dispatched on the connection
-func keyOf(d desc) string {
-	if d.Stream && d.Scribble {
-		for _, conn := range d.Conns {
-			for i, q := range conn {
-				if q.Framing && !q.BadHead && i+1 < len(conn) {
-					return "stream-framing-from-mutable-header"
-				}
-			}
-		}
-	}
-	if d.HdrRecv && d.RT == 0 && d.IT == 0 {
-		for _, conn := range d.Conns {
-			armed := false
-			for _, q := range conn {
-				if armed && !q.BadHead && q.RT == 0 {
-					return "headerreceived-readtimeout-leaks"
-				}
-				if q.RT > 0 && !q.BadHead {
-					armed = true
-				}
-			}
-		}
-	}
-	return ""
-}
+// keyOf: no known finding class is left for C11 (both were fixed in /repo: cbb8567, 1f5b132)
+func keyOf(d desc) string { return "" }
 
 func scfgCoq(d desc) string {
 	return hlib.App("mkScfg", hlib.Z(int64(d.RT)), hlib.Z(int64(d.IT)), hlib.Z(int64(d.WT)), hlib.Z(int64(d.Max)), hlib.Bool(d.HdrRecv), hlib.Bool(d.ExpectH),
@@ -923,7 +899,7 @@ func gen(r *rand.Rand, i int) desc {
 }
 
 func corpus() []desc {
-	c := []desc{{Op: "fields"}}
+	c := []desc{{Op: "fields"}, {Op: "written"}}
 	for k := range resetKinds {
 		c = append(c, desc{Op: "reset", Kind: k})
 	}
@@ -974,8 +950,43 @@ func corpus() []desc {
 	return c
 }
 
+// runWritten: which observable fields are non-zero when a handler is called on a NEW server (nothing can be
+// left over there): the model's parse/loop write set must cover them.
+func runWritten() hlib.Case {
+	set := map[string]bool{}
+	battery := []reqD{
+		{Method: "GET", URI: "/a?x=1#f", Headers: []string{"Cookie: a=1", "User-Agent: ua/1", "Trailer: X-T", "Content-Type: text/x"}},
+		{Method: "POST", URI: "http://user:pw@abs.example/p?q=1", Kind: "form", Body: "pa=1&pb=two", Close: true},
+		{Method: "POST", URI: "/m", Kind: "multipart", Body: "fieldvalue", BodyN: 20},
+		{Method: "PUT", URI: "/c", Kind: "chunked", Body: "chunky", BodyN: 30},
+		{Method: "POST", URI: "/e", Body: "raw", Expect: true},
+		{Method: "HEAD", URI: "/"},
+	}
+	for _, stream := range []bool{false, true} {
+		for _, q := range battery {
+			d := desc{Stream: stream}
+			s := newServer(d, func(ctx *fasthttp.RequestCtx) {
+				for _, f := range ctxFields(ctx) {
+					if !skipInDigest[f.name] && !isZero(f.v) {
+						set[f.name] = true
+					}
+				}
+			})
+			s.ServeConn(&lconn{r: bytes.NewReader(wire(q, 0))}) //nolint:errcheck
+		}
+	}
+	var names []string
+	for n := range set {
+		names = append(names, strconv.Quote(n))
+	}
+	sort.Strings(names)
+	return hlib.Case{Coq: hlib.App("CWritten", hlib.List(names)), Kind: "written", Sig: "written", Size: len(names)}
+}
+
 func run(d desc) hlib.Case {
 	switch d.Op {
+	case "written":
+		return runWritten()
 	case "fields":
 		return runFields()
 	case "reset":
